@@ -7,6 +7,8 @@ import (
 	"fmt"
 	"os"
 	"time"
+
+	ds "github.com/sealdice/dicescript"
 )
 
 func init() {
@@ -21,6 +23,9 @@ func init() {
 				OpLimit    int64  `json:"oplimit"`
 				ParseLimit uint64 `json:"parselimit"`
 				Mode       int    `json:"mode"`
+				// LazyPre: definitions evaluated on a VM WITHOUT budgets, snapshotted to JSON and restored into the budgeted VM:
+				// their bodies are compiled on first use, under the budgeted VM's limits
+				LazyPre string `json:"lazypre"`
 			}
 			if json.Unmarshal(sc.Bytes(), &in) != nil {
 				continue
@@ -29,6 +34,22 @@ func init() {
 			cfg := allOn()
 			cfg.OpLimit, cfg.ParseLimit, cfg.Mode = in.OpLimit, in.ParseLimit, in.Mode
 			vm := newVM(cfg, 5, 6, true)
+			if in.LazyPre != "" {
+				pre, _ := base64.StdEncoding.DecodeString(in.LazyPre)
+				c0 := allOn()
+				c0.OpLimit, c0.ParseLimit = 0, 0
+				vm0 := newVM(c0, 1, 2, true)
+				func() {
+					defer func() { _ = recover() }()
+					_ = vm0.Run(string(pre))
+					if js, err := vm0.Attrs.ToJSON(); err == nil {
+						m := &ds.ValueMap{}
+						if json.Unmarshal(js, m) == nil {
+							vm.Attrs = m
+						}
+					}
+				}()
+			}
 			t0 := time.Now()
 			row := map[string]any{"i": idx}
 			idx++
